@@ -606,7 +606,7 @@ func (c *compiler) compile(tok *token) []instruction {
 		}
 		for i, arg := range tok.Tokens[funcArguments].Tokens {
 			if arg.Text == "_" { // every blank parameter takes a slot of its own: the arguments stay aligned
-				c.Locals.Index(fmt.Sprintf("_%d", i))
+				c.Locals.Index(fmt.Sprintf("_#%d", i)) // not an identifier: no parameter can carry this name
 				continue
 			}
 			c.Locals.Index(arg.Text)
